@@ -29,10 +29,12 @@ Definition tree_multiplier (red : reducer) (add : adder) (A B : list bool) : opt
 Definition twos_comp_cond (w : list bool) (s : bool) : list bool :=
   if s then zbits (length w) (bval (map negb w) + 1) else w.
 
-(* FIXABLE SPOT (F10).  signed_tree_multiplier multiplies `a[:-1]`, `b[:-1]`:
-   the magnitude with its top bit dropped, which loses |-2^(n-1)| = 2^(n-1).
-   A fix that keeps all n magnitude bits corresponds to `fun a => a`. *)
-Definition stm_magnitude (a : list bool) : list bool := removelast a.
+(* SWITCH POINT (F10).  Before fix 04b48dd signed_tree_multiplier multiplied
+   `a[:-1]`, `b[:-1]` (stm_magnitude_prefix): the magnitude with its top bit
+   dropped, which loses |-2^(n-1)| = 2^(n-1).  Since the fix it multiplies the
+   full-width magnitudes: stm_magnitude (the model of record). *)
+Definition stm_magnitude_prefix (a : list bool) : list bool := removelast a.
+Definition stm_magnitude (a : list bool) : list bool := a.
 
 (* signed_tree_multiplier ignores its reducer/adder_func arguments: the inner
    tree_multiplier is called with the defaults (wallace_reducer, kogge_stone) *)
